@@ -10,6 +10,7 @@ Store plans, requests and observations are plain JSON so that a violation can be
 import copy
 import json
 import sqlite3
+from pathlib import Path
 
 import kdrv
 from kdrv import enums, OT, AT
@@ -37,33 +38,81 @@ OTHER_FILTERS = {                # attributes for which the server keeps no valu
 
 
 # ---------------------------------------------------------------------------------------------- policies
-def build_policies():
-    base = copy.deepcopy(kdrv.core_policy.policies)
-    preset = base['default']['preset']
-    pols = {'default': base['default'], 'public': base['public']}
+TYPE_ORDER = ['CERTIFICATE', 'SYMMETRIC_KEY', 'PUBLIC_KEY', 'PRIVATE_KEY', 'SPLIT_KEY', 'TEMPLATE', 'SECRET_DATA', 'OPAQUE_DATA', 'PGP_KEY']
 
-    def with_locate(value, only=None, drop=()):
-        sec = copy.deepcopy(preset)
-        for t in list(sec):
-            if t in drop:
-                del sec[t]
+
+class Pols:
+    """engine: what KmipEngine is given (built-in policies + the result of kmip.core.policy.read_policy_from_file on the
+    policy FILE written below); docs: the same policies as plain JSON documents ({name: {'preset': {TYPE: {OPERATION:
+    PERMISSION}}, 'groups': {group: {...}}}}, strings only), which is what the specification side (direct oracle and the
+    Coq policy term) reads - it never looks at the parsed result."""
+    def __init__(self, engine, docs, path):
+        self.engine, self.docs, self.path = engine, docs, path
+
+
+def _doc_of_builtin(pb):
+    out = {}
+    if pb.get('preset'):
+        out['preset'] = {t.name: {op.name: perm.name for op, perm in ops.items()} for t, ops in pb['preset'].items()}
+    if pb.get('groups'):
+        out['groups'] = {g: {t.name: {op.name: perm.name for op, perm in ops.items()} for t, ops in sec.items()} for g, sec in pb['groups'].items()}
+    return out
+
+
+def policy_documents():
+    """The policy file of the check, as a JSON-able dict.  Sections list several object types whose Locate rules differ,
+    in both listing orders, in preset and in group sections."""
+    base = _doc_of_builtin(kdrv.core_policy.policies['default'])['preset']
+
+    def section(locate, order=TYPE_ORDER, drop=()):
+        """locate: permission for every type, or {TYPE: permission or None (no Locate entry)}."""
+        sec = {}
+        for t in order:
+            if t in drop or t not in base:
                 continue
-            if only is None or t in only:
-                sec[t][LOCATE] = value
-            elif LOCATE in sec[t]:
-                del sec[t][LOCATE]
+            ops = dict(base[t])
+            perm = locate.get(t) if isinstance(locate, dict) else locate
+            if perm is None:
+                ops.pop('LOCATE', None)
+            else:
+                ops['LOCATE'] = perm
+            sec[t] = ops
         return sec
-    pols['open'] = {'preset': with_locate(P.ALLOW_ALL)}
-    pols['closed'] = {'preset': with_locate(P.DISALLOW_ALL)}
-    pols['team'] = {'preset': with_locate(P.ALLOW_OWNER),
-                    'groups': {'g1': with_locate(P.ALLOW_ALL),
-                               'g2': with_locate(P.ALLOW_OWNER, only=(OT.SYMMETRIC_KEY, OT.SECRET_DATA, OT.CERTIFICATE)),
-                               'g3': with_locate(P.ALLOW_ALL, drop=(OT.OPAQUE_DATA, OT.PRIVATE_KEY))}}
-    pols['partial'] = {'preset': with_locate(P.ALLOW_ALL, only=(OT.SYMMETRIC_KEY, OT.PUBLIC_KEY, OT.OPAQUE_DATA, OT.SPLIT_KEY))}
-    return pols
+    A, O, D = 'ALLOW_ALL', 'ALLOW_OWNER', 'DISALLOW_ALL'
+    rev = list(reversed(TYPE_ORDER))
+    per_type = {'CERTIFICATE': A, 'SYMMETRIC_KEY': O, 'PUBLIC_KEY': A, 'PRIVATE_KEY': O, 'SPLIT_KEY': D, 'TEMPLATE': O,
+                'SECRET_DATA': A, 'OPAQUE_DATA': O, 'PGP_KEY': O}
+    per_type_g = {'CERTIFICATE': O, 'SYMMETRIC_KEY': A, 'PUBLIC_KEY': O, 'PRIVATE_KEY': A, 'SPLIT_KEY': A, 'TEMPLATE': D,
+                  'SECRET_DATA': O, 'OPAQUE_DATA': A, 'PGP_KEY': D}
+    only_g2 = {t: (O if t in ('SYMMETRIC_KEY', 'SECRET_DATA', 'CERTIFICATE') else None) for t in TYPE_ORDER}
+    only_partial = {t: (A if t in ('SYMMETRIC_KEY', 'PUBLIC_KEY', 'OPAQUE_DATA', 'SPLIT_KEY') else None) for t in TYPE_ORDER}
+    return {
+        'open': {'preset': section(A)},
+        'closed': {'preset': section(D)},
+        'team': {'preset': section(O),
+                 'groups': {'g1': section(A), 'g2': section(only_g2), 'g3': section(A, drop=('OPAQUE_DATA', 'PRIVATE_KEY'))}},
+        'partial': {'preset': section(only_partial)},
+        'mixed': {'preset': section(per_type), 'groups': {'g1': section(per_type_g), 'g3': section(per_type_g, order=rev)}},
+        'mixedrev': {'preset': section(per_type, order=rev), 'groups': {'g1': section(per_type_g, order=rev), 'g2': section(per_type)}},
+    }
 
 
-POLICY_NAMES = ['default', 'open', 'team', 'partial', 'closed', 'public', 'nope']
+def build_policies(ctx):
+    docs = policy_documents()
+    d = Path(ctx.work)
+    d.mkdir(parents=True, exist_ok=True)
+    path = d / 'c14_policies.json'
+    path.write_text(json.dumps(docs, indent=1))
+    loaded = kdrv.core_policy.read_policy_from_file(str(path))          # the real file reader
+    base = copy.deepcopy(kdrv.core_policy.policies)
+    engine = {'default': base['default'], 'public': base['public']}
+    engine.update(loaded)
+    all_docs = {'default': _doc_of_builtin(base['default']), 'public': _doc_of_builtin(base['public'])}
+    all_docs.update(json.loads(path.read_text()))                        # the specification reads the file itself
+    return Pols(engine, all_docs, str(path))
+
+
+POLICY_NAMES = ['default', 'open', 'team', 'partial', 'mixed', 'mixedrev', 'closed', 'public', 'nope']
 REQUESTERS = [('alice', None), ('bob', None), ('carol', None), ('dave', None),
               ('carol', ['g1']), ('alice', ['g2']), ('bob', ['g2', 'g1']), ('bob', ['g3']),
               ('alice', []), ('alice', ['']), ('bob', ['nogroup']), ('alice', ['nogroup', ''])]
@@ -71,27 +120,28 @@ REQUESTERS = [('alice', None), ('bob', None), ('carol', None), ('dave', None),
 
 def section_to_coq(sec):
     rows = []
-    for t in sorted(sec, key=lambda t: t.value):
-        e = sec[t].get(LOCATE)
+    for t in sorted(sec, key=lambda t: OT[t].value):
+        e = sec[t].get('LOCATE')
         if e is None:
             continue
-        rows.append('(%s, %s)' % (cp.z(t.value), {P.ALLOW_ALL: 'AllowAll', P.ALLOW_OWNER: 'AllowOwner', P.DISALLOW_ALL: 'DisallowAll'}[e]))
+        rows.append('(%s, %s)' % (cp.z(OT[t].value), {'ALLOW_ALL': 'AllowAll', 'ALLOW_OWNER': 'AllowOwner', 'DISALLOW_ALL': 'DisallowAll'}[e]))
     return '[' + '; '.join(rows) + ']'
 
 
-def policies_to_coq(pols):
+def policies_to_coq(docs):
+    """The Coq policy term, from the JSON documents."""
     rows = []
-    for name in sorted(pols):
-        pb = pols[name]
+    for name in sorted(docs):
+        pb = docs[name]
         preset = '(Some %s)' % section_to_coq(pb['preset']) if pb.get('preset') else 'None'
-        groups = '[' + '; '.join('(%s, %s)' % (cp.string(g), section_to_coq(s)) for g, s in sorted((pb.get('groups') or {}).items())) + ']'
+        groups = '[' + '; '.join('(%s, %s)' % (cp.string(g), section_to_coq(sec)) for g, sec in sorted((pb.get('groups') or {}).items())) + ']'
         rows.append('(%s, mkPolicy %s %s)' % (cp.string(name), preset, groups))
     return '[' + ';\n   '.join(rows) + ']'
 
 
-def may_locate(pols, user, groups, owner, otype_name, pname):
-    """Direct reading of the policy documents (no model): may `user` (with `groups`) locate the object?"""
-    pb = pols.get(pname)
+def may_locate(docs, user, groups, owner, otype_name, pname):
+    """Direct reading of the policy DOCUMENTS (no model, not the parsed result): may `user` (with `groups`) locate the object?"""
+    pb = docs.get(pname)
     if not pb:
         return False
     sections = []
@@ -100,11 +150,11 @@ def may_locate(pols, user, groups, owner, otype_name, pname):
     else:
         for g in groups:
             sections.append((pb.get('groups') or {}).get(g) if g is not None else pb.get('preset'))
-    for s in sections:
-        if not s:
+    for sec in sections:
+        if not sec:
             continue
-        e = (s.get(OT[otype_name]) or {}).get(LOCATE)
-        if e == P.ALLOW_ALL or (e == P.ALLOW_OWNER and user == owner):
+        e = (sec.get(otype_name) or {}).get('LOCATE')
+        if e == 'ALLOW_ALL' or (e == 'ALLOW_OWNER' and user == owner):
             return True
     return False
 
@@ -119,7 +169,7 @@ def gen_plan(rng, n, epoch=False, doctored=False):
     for i in range(n):
         t = rng.choice(['SYMMETRIC_KEY'] * 3 + ['PUBLIC_KEY', 'PRIVATE_KEY', 'SPLIT_KEY', 'CERTIFICATE', 'CERTIFICATE', 'SECRET_DATA', 'OPAQUE_DATA', 'KEY_PAIR'])
         o = {'type': t, 'owner': rng.choice(USERS[:2] if rng.random() < 0.8 else USERS),
-             'policy': rng.choice([None, 'default', 'default', 'open', 'open', 'open', 'team', 'team', 'team', 'partial', 'partial', 'closed', 'public', 'nope']),
+             'policy': rng.choice([None, 'default', 'default', 'open', 'open', 'team', 'team', 'team', 'mixed', 'mixed', 'mixedrev', 'mixedrev', 'partial', 'partial', 'closed', 'public', 'nope']),
              'names': [[s, rng.choice(['UNINTERPRETED_TEXT_STRING'] * 3 + ['URI'])] for s in rng.sample(name_pool, rng.choice([0, 0, 1, 1, 2]))],
              'groups': rng.sample(group_pool, rng.choice([0, 0, 1, 2])),
              'asi': [list(x) for x in rng.sample(asi_pool, rng.choice([0, 0, 1, 2]))],
@@ -165,8 +215,8 @@ def _common_attrs(o, with_mask):
 class Store:
     def __init__(self, ctx, plan, pols):
         self.plan = plan
-        self.pols = pols
-        self.eng = kdrv.Engine(policies=pols, workdir=ctx.work)
+        self.pols = pols.docs          # what the specification side reads
+        self.eng = kdrv.Engine(policies=pols.engine, workdir=ctx.work)
         self.created = []        # uids in creation order
         self._build()
         self.objs = self._read_dump()          # for the model (raw SQL)
@@ -477,7 +527,8 @@ def gen_filter_matching(rng, kind, o):
 
 
 FAR_FUTURE = 4102444800          # 2100-01-01, beyond 32 bits
-DATE_EDGES = [0, 0, 1, -1, FAR_FUTURE]
+HUGE = 2 ** 62                   # beyond what time.gmtime converts (the debug message of _is_valid_date must cope)
+DATE_EDGES = [0, 0, 1, -1, FAR_FUTURE, HUGE, -HUGE]
 
 
 def boundary_dates(rng, store, target):
@@ -486,7 +537,7 @@ def boundary_dates(rng, store, target):
     [T, far future] and exact matches on 0 occur with objects on both sides of the bounds."""
     dates = sorted({o['idate'] for o in store.objs}) or [1600000000]
     t = target['idate'] if target is not None else rng.choice(dates)
-    menu = [0, 0, 1, -1, FAR_FUTURE, t, t, t - 1, t + 1, dates[0], dates[-1], dates[len(dates) // 2]]
+    menu = [0, 0, 1, -1, FAR_FUTURE, HUGE, -HUGE, t, t, t - 1, t + 1, dates[0], dates[-1], dates[len(dates) // 2]]
     k = rng.choice([1, 2, 2, 2, 2])
     return [['date', rng.choice(menu)] for _ in range(k)]
 
@@ -835,7 +886,7 @@ def gen_large_plan(rng, n):
             o.update({'type': 'SYMMETRIC_KEY', 'how': 'create', 'alg': 'AES', 'len': rng.choice([128, 256])})
         if o['type'] == 'SYMMETRIC_KEY':
             o['how'] = 'create'
-        o['policy'] = rng.choice(['default', 'open', 'open', 'team', 'team', 'partial', 'closed'])
+        o['policy'] = rng.choice(['default', 'open', 'team', 'team', 'mixed', 'mixedrev', 'partial', 'closed'])
         if rng.random() < 0.85:
             o['state'] = 'PRE_ACTIVE'
         r = rng.random()
@@ -1005,6 +1056,16 @@ GRID_PLAN = [
     {'type': 'SYMMETRIC_KEY', 'how': 'register', 'alg': 'TRIPLE_DES', 'len': 192, 'owner': 'bob', 'policy': 'team', 'names': [['k1', 'UNINTERPRETED_TEXT_STRING']],
      'groups': [], 'asi': [], 'sensitive': False, 'mask': ['MAC_GENERATE', 'MAC_VERIFY'], 'state': 'PRE_ACTIVE', 'advance': 0},
 ]
+GRID_PLAN += [
+    # policies from the policy FILE whose Locate rules differ per object type (both listing orders), other owner
+    {'type': 'PRIVATE_KEY', 'alg': 'RSA', 'len': 1024, 'owner': 'bob', 'policy': 'mixedrev', 'names': [['k1', 'UNINTERPRETED_TEXT_STRING']], 'groups': ['grpB'],
+     'asi': [], 'sensitive': None, 'mask': ['SIGN'], 'state': 'PRE_ACTIVE', 'advance': 0},
+    {'type': 'PUBLIC_KEY', 'alg': 'RSA', 'len': 1024, 'owner': 'bob', 'policy': 'mixed', 'names': [['k2', 'UNINTERPRETED_TEXT_STRING']], 'groups': [],
+     'asi': [], 'sensitive': None, 'mask': ['VERIFY'], 'state': 'PRE_ACTIVE', 'advance': 1},
+    {'type': 'SYMMETRIC_KEY', 'how': 'create', 'alg': 'AES', 'len': 128, 'owner': 'bob', 'policy': 'mixed', 'names': [], 'groups': ['prod'],
+     'asi': [], 'sensitive': None, 'mask': ['ENCRYPT'], 'state': 'PRE_ACTIVE', 'advance': 0},
+    {'type': 'SECRET_DATA', 'owner': 'bob', 'policy': 'mixedrev', 'names': [], 'groups': [], 'asi': [], 'sensitive': None, 'mask': [], 'state': 'PRE_ACTIVE', 'advance': 1},
+]
 GRID_CERT = {'type': 'CERTIFICATE', 'owner': 'alice', 'policy': 'open', 'names': [['web', 'UNINTERPRETED_TEXT_STRING']], 'groups': ['prod'], 'asi': [],
              'sensitive': False, 'mask': ['VERIFY', 'CERTIFICATE_SIGN'], 'state': 'ACTIVE', 'advance': 1}
 
@@ -1020,6 +1081,10 @@ def grid_requests(rng, store):
                 f = gen_filter(rng, kind, store)       # e.g. a certificate-type filter aimed at a key: inapplicable
             out.append((reqs[0], [f]))
             out.append((rng.choice(reqs), [f, gen_filter(rng, rng.choice(FILTER_KINDS), store)]))
+    for rq in reqs + [('alice', ['g3']), ('bob', ['g2']), ('dave', None)]:
+        out.append((rq, []))
+        out.append((rq, [['otype', 'PRIVATE_KEY']]))
+        out.append((rq, [['policy', 'mixed']]))
     dates = sorted({o['idate'] for o in store.objs})
     lo, hi = dates[0], dates[-1]
     mid = dates[len(dates) // 2]
@@ -1029,6 +1094,8 @@ def grid_requests(rng, store):
     # boundary values in BOTH positions of a range, and as exact matches: 0, 1, -1, first / middle / last creation second,
     # one after the last, far future; the store's dates straddle every pair
     edges = [0, 1, -1, lo, mid, hi, hi + 1, FAR_FUTURE]
+    for ds in ([HUGE], [-HUGE], [HUGE, mid], [mid, HUGE], [-HUGE, mid], [mid, -HUGE], [-HUGE, HUGE], [HUGE, -HUGE], [0, HUGE]):
+        out.append((reqs[0], [['date', d] for d in ds]))
     for a in edges:
         out.append((reqs[0], [['date', a]]))
         for b in edges:
@@ -1056,7 +1123,7 @@ def run_grid(ctx, rng, idx, plan, pols, cases, meta, defs):
                 version = rng.choice([(1, 4), (2, 0)])
             full_obs = run_locate(store, req, fs, None, None, version)
             n_full = len(full_obs['ids']) if full_obs['ids'] is not None else 2
-            for (off, mx) in [(None, None), (1, None), (None, 1), (0, n_full), (1, max(n_full - 1, 0)), (n_full, 1)][:rng.choice([1, 1, 2, 3, 6])]:
+            for (off, mx) in [(None, None), (1, None), (None, 1), (0, n_full), (1, max(n_full - 1, 0)), (n_full, 1)][:rng.choice([1, 1, 1, 2, 3])]:
                 obs = full_obs if (off is None and mx is None) else run_locate(store, req, fs, off, mx, version)
                 cases.append(case_to_coq(sname, req, fs, off, mx, obs, version))
                 meta.append({'store': idx, 'plan': plan, 'requester': list(req), 'filters': fs, 'offset': off, 'maximum': mx,
@@ -1089,8 +1156,8 @@ def run(ctx):
     structure_check(ctx)
     quick = ctx.tier == 'quick'
     rng = ctx.subrng('locate')
-    pols = build_policies()
-    cases, meta, defs = [], [], ['Definition pols_ : policies :=\n  %s.' % policies_to_coq(pols)]
+    pols = build_policies(ctx)
+    cases, meta, defs = [], [], ['Definition pols_ : policies :=\n  %s.' % policies_to_coq(pols.docs)]
     n_stores = 22 if quick else 160
     n_requests = 12 if quick else 30
     sizes = [0, 1, 2, 3, 5, 8, 12]
@@ -1153,7 +1220,7 @@ class _Collect:
 def violates(ctx, plan, req, fs, off, mx, version, kind, page_size=None):
     col = _Collect()
     try:
-        store = Store(ctx, plan, build_policies())
+        store = Store(ctx, plan, build_policies(ctx))
     except RuntimeError:
         return None
     try:
@@ -1237,7 +1304,7 @@ def replay(ctx, payload):
             print('replay file names no concrete input')
             return 2
         w = cands[0]['case']
-    pols = build_policies()
+    pols = build_policies(ctx)
     store = Store(ctx, w['plan'], pols)
     try:
         req = (w['requester'][0], w['requester'][1])
